@@ -95,7 +95,7 @@ func findSelectorExprViolation(
 	expr *ast.SelectorExpr,
 ) *PackageOnlyViolation {
 	// Get the type information
-	obj := ctx.pass.TypesInfo.ObjectOf(expr.Sel)
+	obj := usedObject(ctx, expr.Sel)
 	if obj == nil {
 		return nil
 	}
@@ -151,13 +151,22 @@ func resolveTypeName(obj *types.TypeName) *types.TypeName {
 	return obj
 }
 
+// usedObject returns the object an identifier refers to. The identifier of an embedded
+// field both declares the field and uses its type: the use is what matters here.
+func usedObject(ctx *packageOnlyContext, ident *ast.Ident) types.Object {
+	if obj, ok := ctx.pass.TypesInfo.Uses[ident]; ok {
+		return obj
+	}
+	return ctx.pass.TypesInfo.ObjectOf(ident)
+}
+
 // findIdentViolation checks identifier usage for local package objects
 // Returns violation or nil
 func findIdentViolation(
 	ctx *packageOnlyContext,
 	ident *ast.Ident,
 ) *PackageOnlyViolation {
-	obj := ctx.pass.TypesInfo.ObjectOf(ident)
+	obj := usedObject(ctx, ident)
 	if obj == nil {
 		return nil
 	}
